@@ -20,7 +20,7 @@ from typing import Any, Dict, Iterator, List, Optional, Tuple
 import hypothesis
 from hypothesis import strategies as st
 
-from vlib import fsaudit, mmgen, mmmut, runner, sut
+from vlib import fsaudit, mmgen, mmmut, runner, sut, tbparse
 
 PID = "C22"
 RULE = (
@@ -344,12 +344,7 @@ def _snapshot(out: pathlib.Path) -> Dict[str, Tuple[int, int, int]]:
     return snap
 
 
-def _tb_bucket(stderr: str) -> str:
-    frames = re.findall(r'File "[^"]*/aas_core_codegen/([^"]+)", line \d+, in (\S+)', stderr)
-    last = stderr.strip().splitlines()[-1] if stderr.strip() else ""
-    m = re.match(r"([A-Za-z_.]+)(:|$)", last)
-    typ = (m.group(1).split(".")[-1] if m else "Exception")
-    return f"{typ}@{frames[-1][0]}:{frames[-1][1]}" if frames else f"{typ}@?"
+_tb_bucket = tbparse.bucket_of_traceback
 
 
 def _normalise(s: str, job: Job) -> str:
